@@ -164,7 +164,7 @@ def St.modFlv (s : St) (id : Nat) (f : Sub → Sub) : St :=
 
 /-- one iteration of the loop over `rtmpSubSessionSet`. While `MergeWriter.Flush` runs the
     subscriber's flags are still the old ones (fresh / waiting), so the flush skips it. -/
-def rtmpOne (key : Bool) (s : St) (id : Nat) : St :=
+def rtmpOne (key : Bool) (hdr : Option Bytes) (s : St) (id : Nat) : St :=
   match s.getRtmp id with
   | none => s
   | some sub =>
@@ -180,36 +180,47 @@ def rtmpOne (key : Bool) (s : St) (id : Nat) : St :=
     match s1.getRtmp id with
     | none => s1
     | some sub1 =>
+      -- a waiting subscriber still gets metadata and sequence headers (ghost: they extend its prologue)
+      let s1h :=
+        if sub1.waitKey && hdr.isSome then
+          (s1.writeAll .rtmp id hdr.toList).modRtmp id fun x => { x with pro := x.pro ++ hdr.toList }
+        else s1
       if sub1.waitKey && key then
-        let sC := if s.cfg.mergeSize > 0 then s1.mergeFlush else s1
+        let sC := if s.cfg.mergeSize > 0 then s1h.mergeFlush else s1h
         sC.modRtmp id fun x => { x with waitKey := false, start := some s.pubLog.length }
-      else s1
+      else s1h
 
-def rtmpLoop (key : Bool) (s : St) : St := (s.rtmpSubs.map (·.id)).foldl (rtmpOne key) s
+def rtmpLoop (key : Bool) (hdr : Option Bytes) (s : St) : St := (s.rtmpSubs.map (·.id)).foldl (rtmpOne key hdr) s
 
 /-- what one iteration of the loop over `httpflvSubSessionSet` does with one subscriber: the units it
     writes to it and the subscriber's new flags. `n` = index of the current message in the (ghost)
     publish log. Fresh: cached headers and GOPs first; then the current tag unless the subscriber is
     (still) waiting for a key frame and this is not one. -/
-def flvOutcome (key : Bool) (g : GopCache.T) (tag : Bytes) (n : Nat) (x : Sub) : List Bytes × Sub :=
+def flvOutcome (key isHdr : Bool) (g : GopCache.T) (tag : Bytes) (n : Nat) (x : Sub) : List Bytes × Sub :=
   let pro := prologue g
   let w := if GopCache.gopCount g > 0 then false else x.waitKey
   let (ws1, x1) : List Bytes × Sub :=
     if x.fresh then (pro, { x with fresh := false, waitKey := w, pro := pro, start := if w then none else some n })
     else ([], x)
   if x1.waitKey then
-    if key then (ws1 ++ [tag], { x1 with waitKey := false, start := some n }) else (ws1, x1)
+    if key then (ws1 ++ [tag], { x1 with waitKey := false, start := some n })
+    else if isHdr then (ws1 ++ [tag], { x1 with pro := x1.pro ++ [tag] })   -- headers reach a waiting subscriber
+    else (ws1, x1)
   else (ws1 ++ [tag], x1)
 
 /-- one iteration of the loop over `httpflvSubSessionSet` (pubLog already holds the current message) -/
-def flvOne (key : Bool) (tag : Bytes) (s : St) (id : Nat) : St :=
+def flvOne (key isHdr : Bool) (tag : Bytes) (s : St) (id : Nat) : St :=
   match s.getFlv id with
   | none => s
   | some x =>
-    let o := flvOutcome key s.flvGop tag (s.pubLog.length - 1) x
+    let o := flvOutcome key isHdr s.flvGop tag (s.pubLog.length - 1) x
     (s.writeFlvAll x o.1).modFlv id (fun _ => o.2)
 
-def flvLoop (key : Bool) (tag : Bytes) (s : St) : St := (s.flvSubs.map (·.id)).foldl (flvOne key tag) s
+def flvLoop (key isHdr : Bool) (tag : Bytes) (s : St) : St := (s.flvSubs.map (·.id)).foldl (flvOne key isHdr tag) s
+
+/-- metadata, video sequence header, AAC sequence header -/
+def isHeaderMsg (m : InMsg) : Bool :=
+  m.typ == 18 || Classify.isVideoKeySeqHeader m.typ m.payload || Classify.isAacSeqHeader m.typ m.payload
 
 /-- append the message to the (ghost) publish log and hand it to the RTMP subscribers:
     directly, or through the merge writer -/
@@ -248,8 +259,9 @@ def statStage (s : St) (m : InMsg) : St :=
 def broadcast (s : St) (m : InMsg) : St :=
   if m.payload.isEmpty then s else
   let key := Classify.isVideoKeyNalu m.typ m.payload
-  let s2 := forward (rtmpLoop key s) m
-  let s3 := flvLoop key (tagWithoutSdf m) s2
+  let isHdr := isHeaderMsg m
+  let s2 := forward (rtmpLoop key (if isHdr then some (chunksWithoutSdf m) else none) s) m
+  let s3 := flvLoop key isHdr (tagWithoutSdf m) s2
   statStage (flvCacheStage (rtmpCacheStage (recordStage s3 m) m) m) m
 
 /-! ### events -/
